@@ -13,6 +13,7 @@ from typing import Tuple
 from jsonpath_rfc9535.function_extensions.filter_function import ExpressionType
 from jsonpath_rfc9535.function_extensions.filter_function import FilterFunction
 
+from .exceptions import JSONPathIndexError
 from .exceptions import JSONPathSyntaxError
 from .exceptions import JSONPathTypeError
 from .filter_expressions import BooleanLiteral
@@ -214,7 +215,7 @@ class Parser:
 
         # 1: or :
         if _maybe_index(stream.current):
-            start = int(stream.current.value)
+            start = self._parse_index(stream.current)
             stream.next_token()
 
         stream.expect(TokenType.COLON)
@@ -223,7 +224,7 @@ class Parser:
         # 1 or 1: or : or ?
         has_step_colon = False
         if _maybe_index(stream.current):
-            stop = int(stream.current.value)
+            stop = self._parse_index(stream.current)
             stream.next_token()
             if stream.current.type_ == TokenType.COLON:
                 has_step_colon = True
@@ -235,7 +236,7 @@ class Parser:
 
         # 1 or ?  A step must be preceded by the second colon.
         if has_step_colon and _maybe_index(stream.current):
-            step = int(stream.current.value)
+            step = self._parse_index(stream.current)
             stream.next_token()
 
         stream.push(stream.current)
@@ -247,6 +248,14 @@ class Parser:
             stop=stop,
             step=step,
         )
+
+    def _parse_index(self, token: Token) -> int:
+        """Return the integer value of an index token."""
+        try:
+            return int(token.value)
+        except ValueError as err:
+            # Python refuses to convert integer strings with thousands of digits.
+            raise JSONPathIndexError("index out of range", token=token) from err
 
     def parse_bracketed_selection(self, stream: TokenStream) -> List[JSONPathSelector]:  # noqa: PLR0912
         """Parse a comma separated list of JSONPath selectors."""
@@ -269,7 +278,7 @@ class Parser:
                         IndexSelector(
                             env=self.env,
                             token=stream.current,
-                            index=int(stream.current.value),
+                            index=self._parse_index(stream.current),
                         )
                     )
             elif stream.current.type_ in (
